@@ -192,6 +192,10 @@ def execute(chunk):
                 m = xRFM(**ctor)
                 m.fit(X, y, Xv, yv)
                 is_class = m.n_classes_ > 0
+                if p['dseed'] % 2 == 1:
+                    # object history: other public calls on other rows before everything that is judged below
+                    from harness.props import _xcommon as xc_
+                    stats['history_calls'] = len(xc_.perturb_history(m, p['dseed'], X.shape[1]))
                 sd = m.get_state_dict()
                 cfg = sd['rfm_params']['model']
                 kind = KIND[cfg['kernel']]
